@@ -331,9 +331,49 @@ class Repo:
     # constant folding
     # ------------------------------------------------------------------------------------
     def fold(self, m: Module, e: ast.expr, _depth: int = 0, env: Optional[Dict[str, Any]] = None) -> Any:
+        """Syntactic folding first; what it cannot fold (helper calls, comprehensions, dict unpacking, ...) is handed to
+        the abstract interpreter, which must reach a single concrete value without any choice."""
+        try:
+            return self._fold(m, e, _depth, env)
+        except NotConst as ex:
+            if _depth > 0 or env:
+                raise
+            try:
+                return self._fold_interp(m, e)
+            except NotConst as ex2:
+                raise NotConst(f"{ex}" + (f"; by evaluation: {ex2}" if str(ex2) else ""))
+
+    _folding: set = set()
+
+    def _fold_interp(self, m: Module, e: ast.expr) -> Any:
+        key = (m.name, ast.dump(e))
+        if key in self._folding:
+            raise NotConst("cyclic")
+        self._folding.add(key)
+        try:
+            from .interp import Interp, KindEnv, PathAbort, _Raise  # late: interp imports model
+            from .report import AnalysisError
+            schema = getattr(self, "_schema_for_fold", None)
+            if schema is None:
+                schema = Schema(self)
+                self._schema_for_fold = schema
+            it = Interp(self, schema, KindEnv(schema))
+            it._reset([])
+            it.stack = [("<fold>", m)]
+            try:
+                v = it.eval(e, {}, m)
+            except (AnalysisError, _Raise, PathAbort, RecursionError) as ex:
+                raise NotConst(f"{type(ex).__name__}: {ex}"[:160])
+            if it.trace:
+                raise NotConst("value depends on a choice")
+            return _to_py(v)
+        finally:
+            self._folding.discard(key)
+
+    def _fold(self, m: Module, e: ast.expr, _depth: int = 0, env: Optional[Dict[str, Any]] = None) -> Any:
         if _depth > 20:
             raise NotConst("too deep")
-        f = lambda x: self.fold(m, x, _depth + 1, env)  # noqa: E731
+        f = lambda x: self._fold(m, x, _depth + 1, env)  # noqa: E731
         if isinstance(e, ast.Constant):
             return e.value
         if isinstance(e, ast.JoinedStr):
@@ -703,3 +743,39 @@ class Schema:
         if c is None:
             return False
         return any(f.name == attr for f in c.fields) or attr in c.properties or attr in c.methods
+
+
+def _to_py(v) -> Any:
+    """Abstract value -> the constant it denotes (NotConst when it is not fully concrete)."""
+    from .values import Const, PyDict, PyList, PyTuple, RefV, Str, Sym
+    if isinstance(v, Const):
+        return v.v
+    if isinstance(v, Str):
+        if v.is_const():
+            return v.const()
+        raise NotConst("string not constant")
+    if isinstance(v, RefV):
+        return Ref(v.qual)
+    if isinstance(v, PyTuple):
+        return tuple(_to_py(x) for x in v.items)
+    if isinstance(v, PyList):
+        if getattr(v, "loop_parts", None):
+            raise NotConst("abstract list")
+        return [_to_py(x) for x in v.items]
+    if isinstance(v, PyDict):
+        if v.opaque_keys:
+            raise NotConst("dict with non-constant keys")
+        out = {}
+        for k, x in v.items.items():
+            out[k[1] if k[0] == "c" else Ref(k[1])] = _to_py(x)
+        return out
+    if isinstance(v, Sym) and v.op == "call" and isinstance(v.args[0], RefV) and v.args[0].qual == "re.compile":
+        a = [_to_py(x) for x in v.args[1]]
+        kw = {k: _to_py(x) for k, x in (v.args[2] or ())} if len(v.args) > 2 else {}
+        fl = a[1] if len(a) > 1 else kw.get("flags")
+        flags = tuple(fl.qual.split("|")) if isinstance(fl, Ref) else ()
+        if a and isinstance(a[0], str):
+            return Regex(a[0], flags)
+    if isinstance(v, Sym) and v.op == "set":
+        return frozenset(_to_py(x) for x in v.args[0])
+    raise NotConst(f"not a constant: {type(v).__name__}")
